@@ -186,6 +186,10 @@ void note(const J& obj); // free-form observation line
 long violationsSeen();
 const std::string& currentCaseKey();
 
+// ASan builds: caseEnd() runs a recoverable LeakSanitizer check every n cases (default 1; 0 = off, the
+// at-exit check still runs). A leak ends the process after attributing it to the current case.
+void leakCheckEvery(long n);
+
 // progress counter sampled by the watchdog (relaxed)
 void progress(uint64_t n = 1);
 
